@@ -3,7 +3,6 @@
 from __future__ import annotations
 
 import contextlib
-from collections.abc import Iterable
 from typing import TYPE_CHECKING, Any, NamedTuple
 
 import networkx as nx
@@ -43,12 +42,16 @@ class _LazyFunction:
             _TASK_GRAPH.mapping[self._id] = self
 
             def add_edge(arg: Any) -> None:
+                # Walk containers exactly like `evaluate_lazy` does, so that every lazy
+                # object that evaluating this node evaluates is a predecessor in the graph.
                 if isinstance(arg, _LazyFunction):
                     _TASK_GRAPH.graph.add_edge(arg._id, self._id)
-                elif isinstance(arg, Iterable):
+                elif isinstance(arg, dict):
+                    for item in arg.values():
+                        add_edge(item)
+                elif isinstance(arg, (tuple, list, set)):
                     for item in arg:
-                        if isinstance(item, _LazyFunction):
-                            _TASK_GRAPH.graph.add_edge(item._id, self._id)
+                        add_edge(item)
 
             for arg in self.args:
                 add_edge(arg)
